@@ -120,7 +120,10 @@ func genC10(rng *rand.Rand, ts int64) c10Case {
 			c.Expiry += 1000
 		}
 	}
-	switch rng.IntN(6) {
+	switch rng.IntN(7) {
+	case 6:
+		// counts that are congruent to an allowed count modulo 2^8 (a narrowed comparison would wrap)
+		c.NActions = []int{256, 257, 256 + int(c.MaxAct), 255 + int(c.MaxAct), 512, 256 + int(c.MaxAct) + 1}[rng.IntN(6)]
 	case 0:
 		c.NActions = int(c.MaxAct) + 1
 	case 1:
@@ -131,7 +134,7 @@ func genC10(rng *rand.Rand, ts int64) c10Case {
 		c.NActions = 1 + rng.IntN(int(c.MaxAct))
 	}
 	for i := 0; i < c.NActions; i++ {
-		if rng.IntN(4) == 0 {
+		if rng.IntN(4) == 0 && (c.NActions <= 32 || rng.IntN(c.NActions) == 0) { // keep the activation clause undecided for long lists
 			c.Ranges = append(c.Ranges, genRange(rng, ts))
 		} else {
 			c.Ranges = append(c.Ranges, [2]int64{-1, -1})
